@@ -28,7 +28,7 @@ ASSUME_DISK = [
 CHECKS = {
     "C02": {
         "level": "exploration",
-        "quick": {"runs": 3000, "wall_s": 60},
+        "quick": {"runs": 12000, "wall_s": 60},
         "thorough": {"runs": 400000, "wall_s": 1200},
         "rule": "seeded histories over {append, replicate batch, delete-from, hard state, membership, compaction pointer, save-applied, advance, reopen} with alignment-biased payload sizes and swarm-chosen log geometry / disk latencies; after every step the full log, 2 random sub-ranges and the initial state are compared with a reference log; a run is non-trivial when it reopened the store at least once with >= 2 entries in the model; distinct = distinct event-log hash",
         "probes": ["record_gt_1024", "record_ge_16k", "truncate_nonempty", "pointer_applied", "reopen_catalogue_le_20", "reopen_multi_file", "reopen_3plus_files"],
@@ -38,7 +38,7 @@ CHECKS = {
     },
     "C03": {
         "level": "exploration",
-        "quick": {"runs": 3000, "wall_s": 60},
+        "quick": {"runs": 12000, "wall_s": 60},
         "thorough": {"runs": 400000, "wall_s": 1200},
         "rule": "seeded log shapes (1..n files via the geometry knob, compaction-pointer files, installed-snapshot pointers inside and beyond the log, reopen) x cut points (small offsets, multiples of the index interval +-1, anywhere, beyond the end) x re-appended sizes (shorter / equal / longer than the removed entries) x optional reopen, several rounds per run; oracle after every step: entries below the cut unchanged, entries at or above it unreadable, append at the cut accepted, payloads of removed entries never returned, the same after reopen; non-trivial = at least one truncation removed entries and the store was reopened; distinct = distinct event-log hash",
         "probes": ["truncate_nonempty", "pointer_applied", "install_pointer_inside", "install_pointer_ahead", "reopen_multi_file", "reopen_3plus_files", "record_gt_1024"],
@@ -48,7 +48,7 @@ CHECKS = {
     },
     "C05": {
         "level": "exploration",
-        "quick": {"runs": 4000, "wall_s": 60},
+        "quick": {"runs": 24000, "wall_s": 60},
         "thorough": {"runs": 600000, "wall_s": 1200},
         "rule": "seeded interleavings of save-hard-state, membership and address updates (alternating long and short records), the other writers of the same file (roll-over SaveLogs, compaction SaveSnapshots, last-applied header), clean reopen and kill -9 placed immediately after an acknowledgement (no observation in between) under swarm-chosen disk latencies; register oracle: every read in the same or any later incarnation returns the last acknowledged (term, vote, membership, addresses); after a kill the value must be one of the versions acknowledged since the last version known durable, and anything older than the last acknowledged version is reported as clause ack_before_durable; non-trivial = reopened at least once with >= 2 log entries; distinct = distinct event-log hash",
         "probes": ["crash_now", "ack_before_durable_seen", "reopen_catalogue_le_20", "pointer_applied", "reopen_multi_file"],
@@ -58,7 +58,7 @@ CHECKS = {
     },
     "C20": {
         "level": "exploration",
-        "quick": {"runs": 100000, "wall_s": 40},
+        "quick": {"runs": 300000, "wall_s": 60},
         "thorough": {"runs": 20000000, "wall_s": 900},
         "rule": "seeded record-length sequences (0..40 records; bodies biased to 1/2/127/128 byte prefixes, frames ending within +-8 bytes of 1024 and 2048, 16383/16384, 70 kB) encoded by the store's own writers, optional zero terminator and stale bytes after it, decoded (a) by MessageBufReader fed a PRNG partition of the stream (chunk styles: tiny, around 1024, ending exactly on record boundaries, byte-by-byte, full 1024) in the log-scan and in the stream-reader loop, (b) by FileMessageReader read_next / read_index_position / read_to_end over a simulated file, (c) by the 1024-byte read loop and by the real SnapshotReader over a simulated file with PRNG-short reads; oracle: decoded frames == written frames, in order, none after the first zero length, none dropped; non-trivial = at least 2 records; distinct = distinct event-log hash. The varint clause (writer, reader, size function agree) has no I/O or schedule in it and is checked as plain enumeration (boundary values of every length + 200 seeded values per run), reported under varint.values_checked, not as simulated runs.",
         "probes": ["record_gt_1024", "record_ends_on_chunk_end", "prefix_1b", "prefix_2b", "prefix_3b", "snapshot_header_gt_1024"],
